@@ -353,12 +353,6 @@ func sPath() *gripql.GraphStatement {
 
 // ---- a small symbolic graph ----
 
-func vSymID(name string, lo, hi byte) string {
-	s := vNondetStringN(name, 1)
-	vAssume(s[0] >= lo && s[0] <= hi)
-	return s
-}
-
 // vGenGraph: nV vertices (ids in [a-b], equal ids allowed -> the later one is
 // dropped so ids stay unique), nE edges with endpoints in [a-c] (c is absent:
 // dangling), labels in [A-B], one property "x" each with a symbolic JSON value.
